@@ -43,6 +43,43 @@ def val(i):
     return i[0] * 10000 + i[1]
 
 
+def sources_named_case(item):
+    """sources() whose source brings NAMED resources: one whose name is the very name the step would generate next, and one that collides
+    with an existing resource - the combined package has unique names, every resource keeps its own descriptor and rows, and later
+    steps address each of them on its own"""
+    import dataflows as DF
+    from dataflows import Flow
+    setup_repo()
+    n = item['n']
+    existing = [[{'e%d' % i: 10 * i + k} for k in range(i + 1)] for i in range(n)]
+    extra = [dict(c=k) for k in range(5)]
+    more = [dict(d=k) for k in range(2)]
+    gen_name = 'res_%d' % (n + 1)
+
+    def build(*steps):
+        source = Flow([dict(r) for r in extra], DF.update_resource(-1, name=gen_name, path=gen_name + '.csv'),
+                      [dict(r) for r in more], DF.update_resource(-1, name='res_1', path='res_1.csv'))
+        return Flow(*[[dict(r) for r in rows] for rows in existing], DF.sources(source), *steps)
+    try:
+        with contextlib.redirect_stdout(io.StringIO()):
+            res, dp, _ = build(DF.update_resource('res_1', title='first')).results()
+            names = [r['name'] for r in dp.descriptor['resources']]
+            if len(set(names)) != len(names):
+                return dict(ok=False, why='two resources of the combined package share one name', names=names)
+            if names[:n] != ['res_%d' % (i + 1) for i in range(n)] or names[n] != gen_name:
+                return dict(ok=False, why='resources that did not collide were renamed', names=names)
+            if [[dict(r) for r in x] for x in res] != existing + [extra, more]:
+                return dict(ok=False, why='rows after sources() + a step that touches one resource by name differ', got=[x[:2] for x in res])
+            if [f['name'] for f in dp.descriptor['resources'][n + 1]['schema']['fields']] != ['d']:
+                return dict(ok=False, why='the descriptor of the renamed resource is not its own')
+            res2, dp2, _ = build(DF.delete_resource([gen_name])).results()
+            if [[dict(r) for r in x] for x in res2] != existing + [more]:
+                return dict(ok=False, why='delete_resource([%r]) after sources() did not remove exactly that resource' % gen_name, got=[len(x) for x in res2])
+        return dict(ok=True)
+    except Exception as e:
+        return dict(ok=False, why='raised %s: %s' % (type(e).__name__, str(e)[:200]))
+
+
 def replay_case(item):
     import dataflows as DF
     from dataflows import Flow
@@ -373,6 +410,12 @@ def run():
             rep.violation(it, dict(op=it['case']['op'], arg=it['case']['arg'], package=it['case']['pkg'], variant=it['variant'],
                                    **{k: v for k, v in out.items() if k != 'ok'}), category='%s/%s' % (it['case']['op'], out['why'][:40]))
     rep.sample(dict(case=dict(pkg=items[0]['case']['pkg'], op=items[0]['case']['op'], arg=items[0]['case']['arg'], names=items[0]['case']['names'])))
+    for it in [dict(sources_named=True, n=n) for n in (1, 2, 3, 4)]:
+        out = sources_named_case(it)
+        rep.count(1, traces=1)
+        rep.mark_distinct(it)
+        if not out['ok']:
+            rep.violation(it, dict(case=it, **{k: v for k, v in out.items() if k != 'ok'}), category='sources-named/%s' % out['why'][:40])
     ad = [dict(n=n, delete=d) for n in (1, 2, 3) for d in range(-n, n)]
     ares = pmap(after_delete_case, ad, procs=1)
     errs = harness_errors(ares)
@@ -422,7 +465,7 @@ def replay(path):
     setup_repo()
     rec = json.load(open(path))
     c = rec['case']
-    out = (replay_case(c) if 'case' in c else twin_case(c['twin']) if 'twin' in c else rename_case(c) if 'follow' in c
+    out = (sources_named_case(c) if c.get('sources_named') else replay_case(c) if 'case' in c else twin_case(c['twin']) if 'twin' in c else rename_case(c) if 'follow' in c
            else sources_case(c) if 'k' in c else after_delete_case(c))
     print(json.dumps(out, default=str)[:1500])
     if not out['ok']:
